@@ -578,9 +578,13 @@ pub fn run_mode(ctx: &Ctx, rep: &mut Report, mode: &str) {
     };
     if mode == "native" {
         let maxlen = if ctx.thorough { 5 } else { 4 };
-        let n = alpha.len() as u64;
         let mut hist_count = 0u64;
+        // length 5 (thorough tier) ranges over the 12 symbols that matter most for state (the full alphabet to the
+        // fifth power would be ten million thread-isolated histories); lengths <= 4 range over the full alphabet
+        let core: Vec<Op> = alpha.iter().filter(|o| matches!(o, Op::Initiate("R1") | Op::Initiate("BAD") | Op::Required(TRef::Issued(0)) | Op::Required(TRef::Next) | Op::Load(TRef::Issued(0), "F1") | Op::Load(TRef::Issued(0), "BADF") | Op::Load(TRef::Issued(1), "F1") | Op::Emit(TRef::Issued(0)) | Op::Emit(TRef::Issued(1)) | Op::Free(TRef::Issued(0)) | Op::Free(TRef::Issued(1)) | Op::Initiate("R2"))).cloned().collect();
         for len in 1..=maxlen {
+            let alpha: &Vec<Op> = if len >= 5 { &core } else { &alpha };
+            let n = alpha.len() as u64;
             let total = n.pow(len as u32);
             let mut code = ctx.shard;
             while code < total {
@@ -600,7 +604,7 @@ pub fn run_mode(ctx: &Ctx, rep: &mut Report, mode: &str) {
         }
         rep.add("exhaustive_histories", hist_count);
         rep.exhaustive = Some(true);
-        rep.note(&format!("bounded-exhaustive: every history of length <= {maxlen} over a {}-symbol alphabet (<= 2 tracked tasks + never-issued/zero ids)", alpha.len()));
+        rep.note(&format!("bounded-exhaustive: every history of length <= 4 over a {}-symbol alphabet (<= 2 tracked tasks + never-issued / zero / next ids){}", alpha.len(), if maxlen >= 5 { format!(", and every history of length 5 over its {}-symbol core", core.len()) } else { String::new() }));
     }
     // scripted scenarios that neither the short exhaustive histories nor the random ones are sure to reach: every order
     // of supplying the files of the two-directories project, a question after each step (repeated: the loader's own
